@@ -330,6 +330,17 @@ class Resolver:
             return self._literal_closed(e)
         if isinstance(e, ast.IfExp):
             return self.closed_name(fi, e.body, depth + 1) and self.closed_name(fi, e.orelse, depth + 1)
+        if isinstance(e, ast.Call) and isinstance(e.func, ast.Name) and e.func.id == "next" and e.args and isinstance(e.args[0], (ast.GeneratorExp, ast.ListComp)):
+            # `next((name for member, name in self._TABLE if pathway == member), None)`: a row of a literal table, or the default
+            return self.closed_name(fi, e.args[0], depth + 1) and all(self.closed_name(fi, a, depth + 1) for a in e.args[1:])
+        if isinstance(e, (ast.GeneratorExp, ast.ListComp, ast.SetComp)):
+            bound = set()
+            for g in e.generators:
+                if not self.closed_name(fi, g.iter, depth + 1):
+                    return False
+                bound |= {y.id for y in ast.walk(g.target) if isinstance(y, ast.Name)}
+            el = e.elt
+            return (isinstance(el, ast.Name) and el.id in bound) or isinstance(el, ast.Constant)
         return False
 
     def _table_literal(self, fi, name):
